@@ -183,12 +183,20 @@ class CQN(RLAlgorithm):
 
         # epsilon-greedy
         if random.random() < epsilon:
+            # Batch size of the (possibly dict / tuple) observation
+            if isinstance(obs, dict):
+                batch_size = next(iter(obs.values())).size(0)
+            elif isinstance(obs, tuple):
+                batch_size = obs[0].size(0)
+            else:
+                batch_size = obs.size(0)
+
             if action_mask is None:
-                action = np.random.randint(0, self.action_dim, size=len(obs))
+                action = np.random.randint(0, self.action_dim, size=batch_size)
             else:
                 action = np.argmax(
                     (
-                        np.random.uniform(0, 1, (len(obs), self.action_dim))
+                        np.random.uniform(0, 1, (batch_size, self.action_dim))
                         * action_mask
                     ),
                     axis=1,
